@@ -347,6 +347,35 @@ def run(ck: Check):
             c["metadata_max_age_ms"] = 100
         sc["cluster_events"] = [{"at": round(1.5 + dt, 3), "op": "add_partitions", "topic": "t0", "n": 1}]
         scs.append(sc)
+    # static membership (group_instance_id, JoinGroup v5): every subset of three members is static, each assignor;
+    # in half of the runs a static member is killed and a new process with the same group.instance.id takes over
+    nstatic = 0
+    for mask in range(1, 8):
+        for asg in (["roundrobin"], ["range"], ["sticky"])[:ck.n(2, 3)]:
+            for restart in (False, True):
+                cons = []
+                for i in range(3):
+                    c = {"name": f"c{i}", "group": "g", "topics": ["t0"], "assignors": asg, "auto_commit": True,
+                         "auto_commit_interval_ms": 300, "cb_delay": 0.01, "_stays": True,
+                         "program": [["sleep", [0.0, 0.3, 1.5][i]], ["start"], ["consume", 4.0, 0.1, None, 0],
+                                     ["consume", quiet + 4.0, 0.1, None, 0], ["stop"]]}
+                    if mask >> i & 1:
+                        c["group_instance_id"] = f"inst-{'ABC'[i]}"
+                    cons.append(c)
+                if restart:
+                    victim = [i for i in range(3) if mask >> i & 1][0]
+                    cons[victim]["program"] = [["sleep", [0.0, 0.3, 1.5][victim]], ["start"], ["consume", 2.5, 0.1, None, 0],
+                                               ["kill"]]
+                    cons[victim]["_stays"] = False
+                    cons.append(dict(cons[victim], name="c9", _stays=True,
+                                     program=[["sleep", 3.2], ["start"], ["consume", 3.0, 0.1, None, 0],
+                                              ["consume", quiet + 4.0, 0.1, None, 0], ["stop"]]))
+                scs.append({"id": f"static-{mask}-{asg[0]}-{int(restart)}", "seed": 11 + mask, "brokers": 1,
+                            "topics": {"t0": 6}, "preload": {"t0": {str(q): 2 for q in range(6)}}, "consumers": cons,
+                            "cluster_events": [], "faults": {"apis": conssim.GROUP_APIS, "plan": {}}, "coordinator": 0,
+                            "max_vtime": 600.0, "family": "static-membership"})
+                nstatic += 1
+    ck.extra["static_membership_runs"] = nstatic
     results = conssim.run_scenarios(scs, timeout=ck.n(900, 3000))
     nbad = 0
     hist = {"failed_runs": 0, "with_live_members": 0}
